@@ -264,7 +264,98 @@ type flowOpts struct {
 }
 
 func (g *gen) flow(i int) *hflow {
+	f := g.flow0(i)
+	g.layouts(f)
+	return f
+}
+
+// ---------- memory layout of the range slices ----------
+
+// How the Ranges slice of every reference lies in memory.  The validators sort
+// range arrays in place and append to them, and the arrays they get belong to the
+// log; whether that shows depends on spare capacity and on shared arrays:
+//
+//	exact       every slice has its own array, cap == len (what a literal gives)
+//	grown       own arrays with the capacity append() growth leaves: 1,2,4,8,...
+//	multi-spare slices of two or more ranges have 1..4 spare elements; some of them
+//	            are windows of one shared array (all[i:j], cap reaching over the
+//	            following windows, or all[i:j:j])
+//	small-spare also slices of fewer than two ranges have spare capacity / are such
+//	            windows: the precondition of finding C10-shared-backing-append
+func (g *gen) layouts(f *hflow) {
+	if f.layKind != "" {
+		return // the generator chose the layout itself
+	}
+	r := g.rn(100)
 	switch {
+	case r < 35:
+		f.layKind = "exact"
+		return
+	case r < 50:
+		f.layKind = "grown"
+	case r < 85:
+		f.layKind = "multi-spare"
+	default:
+		f.layKind = "small-spare"
+	}
+	f.tails = map[int]int{}
+	grp := 0
+	left := 0 // references still to be placed into the current shared array
+	f.eachRef(func(x *href) {
+		n := len(x.ranges)
+		small := n < 2
+		switch f.layKind {
+		case "grown":
+			c := 1
+			for c < n {
+				c *= 2
+			}
+			if n == 0 {
+				c = 0
+			}
+			x.lay = &layout{spare: c - n}
+			return
+		case "multi-spare":
+			if small {
+				// own array without spare capacity; or a window that cannot grow
+				if left > 0 && g.p(50) {
+					left--
+					x.lay = &layout{grp: grp, lim: true}
+				}
+				return
+			}
+		}
+		switch {
+		case left > 0 && g.p(70):
+			left--
+			x.lay = &layout{grp: grp, lim: g.p(30)}
+		case g.p(25):
+			grp++
+			left = 1 + g.rn(3)
+			f.tails[grp] = []int{0, 0, 1, 3}[g.rn(4)]
+			x.lay = &layout{grp: grp, lim: g.p(30)}
+		case g.p(75):
+			x.lay = &layout{spare: 1 + g.rn(4)}
+		default:
+			x.lay = &layout{}
+		}
+	})
+	if f.layKind == "multi-spare" {
+		// a window of fewer than two ranges must not be able to grow: when it is the
+		// last one placed into its array nothing follows it, but later windows may
+		// have been added behind an earlier one; [lim] was set for all of them above
+		f.eachRef(func(x *href) {
+			if x.lay != nil && len(x.ranges) < 2 && x.lay.grp > 0 {
+				x.lay.lim = true
+			}
+		})
+	}
+}
+
+func (g *gen) flow0(i int) *hflow {
+	switch {
+	case i%23 == 8 || i%23 == 20:
+		return g.aliasFlow()
 	case i%23 == 5:
 		return g.d6Flow()
 	case i%23 == 11:
@@ -465,6 +556,121 @@ func (g *gen) generic(o flowOpts) *hflow {
 				}
 			}
 		}
+	}
+	return f
+}
+
+// Several references to one artifact in one address space, the first of them with
+// two or more ranges and room to grow, a later one (same measurement, same step or
+// a later step) reaching below it: References.SortAndMerge folds the later ones
+// into the first.  Actors live in what the first reference measured, and in
+// something never measured.
+func (g *gen) aliasFlow() *hflow {
+	f := &hflow{kind: "merge-into-first-reference", exact: true, layKind: "first-reference-with-spare"}
+	if g.p(40) {
+		g.uefiImage(f)
+	} else {
+		g.plainImage(f)
+	}
+	var extra []uint64
+	for _, x := range f.exec {
+		extra = append(extra, x.Off, x.Off+x.Len)
+	}
+	sp := g.mkSpace(f.img, extra)
+	for len(sp.cuts) < 12 {
+		sp = g.mkSpace(f.img, extra)
+	}
+	// disjoint pieces between consecutive cut points
+	n := len(sp.cuts) - 1
+	piece := func(i int) hrange {
+		lo, hi := sp.cuts[i], sp.cuts[i+1]
+		if hi-lo > 2 && g.p(50) {
+			hi -= 1 + uint64(g.r.Int63n(int64(hi-lo-1))) // leave a gap: no merge with the next piece
+		}
+		return hrange{lo, hi - lo}
+	}
+	k := 2 + g.rn(4)
+	if k > n-2 {
+		k = n - 2
+	}
+	// the first reference takes k pieces from the upper part, the later ones reach below
+	idxs := g.r.Perm(n)
+	var first, low []int
+	sort.Ints(idxs[:k+2])
+	low = append(low, idxs[0], idxs[1])
+	first = append(first, idxs[2:k+2]...)
+	g.r.Shuffle(len(first), func(i, j int) { first[i], first[j] = first[j], first[i] })
+	var a []hrange
+	for _, i := range first {
+		a = append(a, piece(i))
+	}
+	phys := g.p(35)
+	spare := 1 + g.rn(3)
+	refA := g.ref(f.img, a, phys)
+	switch g.rn(4) {
+	case 0: // what append() growth leaves
+		c := 1
+		for c < len(a) {
+			c *= 2
+		}
+		if c == len(a) {
+			c *= 2
+		}
+		spare = c - len(a)
+		refA.lay = &layout{spare: spare}
+	default:
+		refA.lay = &layout{spare: spare}
+	}
+	var later []href
+	for m := 1 + g.rn(2); m > 0; m-- {
+		var b []hrange
+		for q := 1 + g.rn(minInt(2, spare)); q > 0; q-- {
+			if g.p(70) {
+				b = append(b, piece(low[g.rn(2)]))
+			} else {
+				b = append(b, g.rng(sp))
+			}
+		}
+		later = append(later, g.ref(f.img, b, phys))
+	}
+	// actors: one living in a piece the first reference measured, one in a piece
+	// nobody measured (if there is one left), one whose code is unknown
+	code1 := []hrange{a[g.rn(len(a))]}
+	if g.p(40) {
+		code1 = append(code1, a[g.rn(len(a))])
+	}
+	f.actors = []*hactor{{id: 1, mode: cmStatic, code: []href{g.ref(f.img, code1, g.p(50))}}}
+	if k+2 < n {
+		f.actors = append(f.actors, &hactor{id: 2, mode: cmStatic, code: []href{g.ref(f.img, []hrange{piece(idxs[k+2])}, g.p(50))}})
+	}
+	f.actors = append(f.actors, &hactor{id: 3, mode: cmNilSource})
+	// steps
+	switch g.rn(3) {
+	case 0: // one measurement, several references
+		f.steps = append(f.steps, hstep{acts: []hact{{k: aMeasure, meas: [][]href{append([]href{refA}, later...)}}}})
+	case 1: // one step, several measurements
+		m := [][]href{{refA}}
+		for _, b := range later {
+			m = append(m, []href{b})
+		}
+		f.steps = append(f.steps, hstep{acts: []hact{{k: aMeasure, meas: m}}})
+	default: // later steps
+		f.steps = append(f.steps, hstep{acts: []hact{{k: aMeasure, meas: [][]href{{refA}}}}})
+		for _, b := range later {
+			if g.p(30) {
+				f.steps = append(f.steps, hstep{acts: []hact{{k: aSetActor, actor: len(f.actors) - 1}}})
+			}
+			f.steps = append(f.steps, hstep{acts: []hact{{k: aMeasure, meas: [][]href{{b}}}}})
+		}
+	}
+	if g.p(30) {
+		f.steps[0].acts = append(f.steps[0].acts, hact{k: aSetActor, actor: len(f.actors) - 1})
+	}
+	for i, n := 0, 1+g.rn(3); i < n; i++ {
+		f.steps = append(f.steps, hstep{acts: []hact{{k: aSetActor, actor: g.rn(len(f.actors))}}})
+	}
+	if len(f.exec) > 0 && !phys {
+		f.mixedFC = true
 	}
 	return f
 }
